@@ -893,3 +893,445 @@ VALUE_MODELS += [
     (R(r"^<std::collections::btree_map::Values<.*> as Iterator>::collect::<Vec<.*>>$"), m_collect_vec),
     (R(r"^<std::vec::IntoIter<.*> as Iterator>::(filter|map|filter_map)::<.*>$"), m_iter_adapt),
 ]
+
+
+# ----------------------------------------------------------------------------- generic lazy iterator layer
+# Iterator chains are the usual shape of a refactoring ("the loop became .iter().map(..).map_while(..).collect()"); every adaptor
+# below is pulled lazily through iter_next, exactly as std does (closures are the real code, called once per pulled item, in
+# pull order), and every consumer is a loop over iter_next. These entries come last, so a more specific model above wins.
+
+ITER_T = (r"(?:std::slice::Iter(?:Mut)?<.*>|std::vec::IntoIter<.*>|std::array::IntoIter<.*>|std::collections::btree_map::(?:Iter|Keys|Values)<.*>|"
+          r"(?:std::iter::)?(?:Filter|Map|FilterMap|MapWhile|TakeWhile|SkipWhile|Take|Skip|Chain|Rev|Cloned|Copied|Zip|Enumerate|Flatten|FlatMap|Once|Peekable|Inspect)<.*>)")
+_LAZY_KINDS = ("filter", "map", "filter_map", "map_while", "take_while", "skip_while", "inspect", "flat_map")
+
+
+def _value_of(ex, st, x):
+    while isinstance(x, Ref):
+        x = ex.read(st, x.cell, x.projs)
+    return x
+
+
+def _sub_iter(ex, st, x):
+    """IntoIterator of an item met by flatten / flat_map: Option / Result (0 or 1 item), vector (owned or by reference), iterator"""
+    v = x
+    if isinstance(v, Ref):
+        base = v
+        while isinstance(ex.read(st, base.cell, base.projs), Ref):
+            base = ex.read(st, base.cell, base.projs)
+        t = ex.read(st, base.cell, base.projs)
+        if isinstance(t, VecV):
+            return Opaque("SliceIter", info=(base, 0))
+        v = t
+    if isinstance(v, VecV):
+        return Opaque("SliceIter", "owned", (Ref(ex.new_cell(st, v, "flat")), 0))
+    if isinstance(v, En) and ("Some" in v.alts or "None" in v.alts or "Ok" in v.alts or "Err" in v.alts):
+        return Opaque("OptIter", info=(v,))
+    if isinstance(v, Opaque) and v.sort in ("SliceIter", "Keys", "Zip", "Enumerate", "Adapt", "Lazy", "OptIter"):
+        return v
+    raise MirUnsupported("flatten over items like %r" % (v,))
+
+
+def lazy_next(ex, st, it):
+    """(state, iterator afterwards, Option item) for the adaptor kinds iter_next does not know"""
+    if it.sort == "OptIter":
+        v = it.info[0]
+        if v is None:
+            yield st, it, none()
+            return
+        good, gi = ("Some", 1) if ("Some" in v.alts or "None" in v.alts) else ("Ok", 0)
+        if good in v.alts:
+            for st2 in ex.branch(st, v.disc == gi):
+                yield st2, Opaque("OptIter", info=(None,)), some(v.alts[good][0])
+        for st2 in ex.branch(st, v.disc != gi):
+            yield st2, Opaque("OptIter", info=(None,)), none()
+        return
+    if it.sort == "Adapt" or (it.sort == "Lazy" and it.e in _LAZY_KINDS):
+        kind, inner, f = it.e, it.info[0], it.info[1]
+        rest = tuple(it.info[2:])
+        mk = lambda inner2, rest2=rest: Opaque(it.sort, kind, (inner2, f) + tuple(rest2))
+        if kind == "flat_map" and rest and rest[0] is not None:   # items of the current sub-iterator first
+            for st2, sub2, r in iter_next(ex, st, rest[0]):
+                if ex.concrete(r.disc) == 0:
+                    yield from lazy_next(ex, st2, mk(inner, (None,)))
+                else:
+                    yield st2, mk(inner, (sub2,)), r
+            return
+
+        def pull(st, cur):
+            for st2, in2, r in iter_next(ex, st, cur):
+                if ex.concrete(r.disc) == 0:
+                    yield st2, mk(in2), none()
+                    continue
+                x = r.alts["Some"][0]
+                arg = Ref(ex.new_cell(st2, x, "adapt")) if kind in ("filter", "take_while", "skip_while", "inspect") else x
+                if kind == "skip_while" and rest and rest[0]:
+                    yield st2, mk(in2), some(x)
+                    continue
+                for o in _call_closure(ex, st2, f, [arg]):
+                    if o.kind != "return":
+                        raise MirUnsupported("iterator closure did not return: %r" % (o,))
+                    v = o.value
+                    if kind == "filter":
+                        for st3 in ex.branch(o.st, v.e):
+                            yield st3, mk(in2), some(x)
+                        for st3 in ex.branch(o.st, z3.Not(v.e)):
+                            yield from pull(st3, in2)
+                    elif kind == "map":
+                        yield o.st, mk(in2), some(v)
+                    elif kind == "inspect":
+                        yield o.st, mk(in2), some(x)
+                    elif kind in ("filter_map", "map_while"):
+                        good, gi = ("Some", 1)
+                        if good in v.alts:
+                            for st3 in ex.branch(o.st, v.disc == gi):
+                                yield st3, mk(in2), some(v.alts[good][0])
+                        for st3 in ex.branch(o.st, v.disc != gi):
+                            if kind == "filter_map":
+                                yield from pull(st3, in2)
+                            else:
+                                yield st3, Opaque("OptIter", info=(None,)), none()
+                    elif kind == "take_while":
+                        for st3 in ex.branch(o.st, v.e):
+                            yield st3, mk(in2), some(x)
+                        for st3 in ex.branch(o.st, z3.Not(v.e)):
+                            yield st3, Opaque("OptIter", info=(None,)), none()
+                    elif kind == "skip_while":
+                        for st3 in ex.branch(o.st, v.e):
+                            yield from pull(st3, in2)
+                        for st3 in ex.branch(o.st, z3.Not(v.e)):
+                            yield st3, mk(in2, (True,)), some(x)
+                    elif kind == "flat_map":
+                        sub = _sub_iter(ex, o.st, v)
+                        yield from lazy_next(ex, o.st, mk(in2, (sub,)))
+        yield from pull(st, inner)
+        return
+    if it.sort == "Lazy":
+        kind = it.e
+        if kind == "chain":
+            a, b = it.info
+            if a is not None:
+                for st2, a2, r in iter_next(ex, st, a):
+                    if ex.concrete(r.disc) == 0:
+                        yield from lazy_next(ex, st2, Opaque("Lazy", "chain", (None, b)))
+                    else:
+                        yield st2, Opaque("Lazy", "chain", (a2, b)), r
+            else:
+                for st2, b2, r in iter_next(ex, st, b):
+                    yield st2, Opaque("Lazy", "chain", (None, b2)), r
+            return
+        if kind == "once":
+            x = it.info[0]
+            if x is None:
+                yield st, it, none()
+            else:
+                yield st, Opaque("Lazy", "once", (None,)), some(x[0])
+            return
+        if kind == "take":
+            inner, n = it.info
+            for st2 in ex.branch(st, n.e <= 0):
+                yield st2, it, none()
+            for st2 in ex.branch(st, n.e > 0):
+                for st3, in2, r in iter_next(ex, st2, inner):
+                    yield st3, Opaque("Lazy", "take", (in2, Sc(z3.simplify(n.e - 1), n.ty))), r
+            return
+        if kind == "skip":
+            inner, n = it.info
+            k = ex.concrete(n.e)
+            if k is None:
+                raise MirUnsupported("skip of a symbolic count")
+
+            def drop(st, cur, k):
+                if k == 0:
+                    yield from iter_next(ex, st, cur)
+                    return
+                for st2, c2, r in iter_next(ex, st, cur):
+                    if ex.concrete(r.disc) == 0:
+                        yield st2, c2, r
+                    else:
+                        yield from drop(st2, c2, k - 1)
+            for st2, c2, r in drop(st, inner, k):
+                yield st2, Opaque("Lazy", "skip", (c2, mk_int(0, "usize"))), r
+            return
+        if kind in ("cloned", "copied"):
+            inner = it.info[0]
+            for st2, in2, r in iter_next(ex, st, inner):
+                if ex.concrete(r.disc) == 0:
+                    yield st2, Opaque("Lazy", kind, (in2,)), r
+                else:
+                    yield st2, Opaque("Lazy", kind, (in2,)), some(_value_of(ex, st2, r.alts["Some"][0]))
+            return
+        if kind == "flatten":
+            inner, sub = it.info
+            if sub is not None:
+                for st2, sub2, r in iter_next(ex, st, sub):
+                    if ex.concrete(r.disc) == 0:
+                        yield from lazy_next(ex, st2, Opaque("Lazy", "flatten", (inner, None)))
+                    else:
+                        yield st2, Opaque("Lazy", "flatten", (inner, sub2)), r
+                return
+            for st2, in2, r in iter_next(ex, st, inner):
+                if ex.concrete(r.disc) == 0:
+                    yield st2, Opaque("Lazy", "flatten", (in2, None)), r
+                else:
+                    yield from lazy_next(ex, st2, Opaque("Lazy", "flatten", (in2, _sub_iter(ex, st2, r.alts["Some"][0]))))
+            return
+        if kind == "rev":
+            base, k = it.info   # k items already taken from the back
+            vec = ex.read(st, base.cell, base.projs)
+            for L in range(k + 1, len(vec.items) + 1):
+                for st2 in ex.branch(st, vec.len == L):
+                    yield st2, Opaque("Lazy", "rev", (base, k + 1)), some(Ref(base.cell, base.projs + (("index", L - 1 - k),)))
+            for st2 in ex.branch(st, vec.len <= k):
+                yield st2, it, none()
+            for st2 in ex.branch(st, vec.len > len(vec.items)):
+                raise MirUnsupported("collection model shorter than its feasible length")
+            return
+    raise MirUnsupported("next() on %r" % (it,))
+
+
+_old_iter_next = iter_next
+
+
+def iter_next(ex, st, it):  # noqa: F811  (the dispatcher every model above reaches through the module global)
+    if isinstance(it, Opaque) and it.sort in ("Lazy", "OptIter", "Adapt"):
+        yield from lazy_next(ex, st, it)
+        return
+    if isinstance(it, Adt) and it.ty in ("Range", "std::ops::Range") and len(it.fields) == 2:
+        lo, hi = it.fields
+        for st2 in ex.branch(st, lo.e < hi.e):
+            yield st2, Adt(it.kind, it.ty, (Sc(z3.simplify(lo.e + 1), lo.ty), hi)), some(lo)
+        for st2 in ex.branch(st, lo.e >= hi.e):
+            yield st2, it, none()
+        return
+    if not isinstance(it, Opaque):
+        raise MirUnsupported("next() on %r" % (it,))
+    yield from _old_iter_next(ex, st, it)
+
+
+def _iter_arg(ex, st, a):
+    """the iterator value and, when it was passed by &mut, the place to write the advanced iterator back to"""
+    if isinstance(a, Ref):
+        return ex.read(st, a.cell, a.projs), a
+    return a, None
+
+
+def _put_back(ex, st, ref, it):
+    if ref is not None:
+        ex.write(st, ref.cell, ref.projs, it)
+
+
+def m_lazy_adapt(ex, st, callee, args, dest_ty):
+    kind = re.search(r" as Iterator>::(\w+)(::<|$)", callee).group(1)
+    it = args[0]
+    if kind in _LAZY_KINDS:
+        yield st, Opaque("Lazy", kind, (it, args[1]) + ((None,) if kind == "flat_map" else ()))
+    elif kind == "chain":
+        other = args[1]
+        yield st, Opaque("Lazy", "chain", (it, other if isinstance(other, (Opaque, Adt)) and not isinstance(other, VecV) and not isinstance(other, En) else _sub_iter(ex, st, other)))
+    elif kind in ("take", "skip"):
+        yield st, Opaque("Lazy", kind, (it, args[1]))
+    elif kind in ("cloned", "copied"):
+        yield st, Opaque("Lazy", kind, (it,))
+    elif kind == "flatten":
+        yield st, Opaque("Lazy", "flatten", (it, None))
+    elif kind == "rev":
+        if not (isinstance(it, Opaque) and it.sort == "SliceIter" and it.e is None and it.info[1] == 0):
+            raise MirUnsupported("rev() of %r" % (it,))
+        yield st, Opaque("Lazy", "rev", (it.info[0], 0))
+    elif kind == "enumerate":
+        yield st, Opaque("Enumerate", info=(it, 0))
+    elif kind == "zip":
+        yield from m_iter_zip(ex, st, callee, args, dest_ty)
+    elif kind in ("by_ref", "into_iter", "fuse", "peekable"):
+        if kind == "peekable":
+            raise MirUnsupported("peekable")
+        yield st, it
+    else:
+        raise MirUnsupported("iterator adaptor " + callee)
+
+
+def m_iter_once(ex, st, callee, args, dest_ty):
+    yield st, Opaque("Lazy", "once", ((args[0],),))
+
+
+def m_lazy_next(ex, st, callee, args, dest_ty):
+    it, ref = _iter_arg(ex, st, args[0])
+    for st2, it2, r in iter_next(ex, st, it):
+        _put_back(ex, st2, ref, it2)
+        yield st2, r
+
+
+def _drain(ex, st, it):
+    """(state, items, exhausted iterator) - pulls until None"""
+    def rec(st, cur, acc):
+        for st2, c2, r in iter_next(ex, st, cur):
+            if ex.concrete(r.disc) == 0:
+                yield st2, acc, c2
+            else:
+                yield from rec(st2, c2, acc + [r.alts["Some"][0]])
+    yield from rec(st, it, [])
+
+
+def m_lazy_consume(ex, st, callee, args, dest_ty):
+    """count / last / nth / fold / for_each / find / find_map / position / sum / min / max / all / any over any modelled iterator"""
+    m = re.search(r" as Iterator>::(\w+)(::<(.*)>)?$", callee)
+    kind = m.group(1)
+    it, ref = _iter_arg(ex, st, args[0])
+    if kind in ("all", "any"):
+        yield from m_iter_all_any(ex, st, " as Iterator>::%s::<F>" % kind, args, dest_ty)
+        return
+    if kind in ("count", "last", "sum", "min", "max"):
+        for st2, items, fin in _drain(ex, st, it):
+            _put_back(ex, st2, ref, fin)
+            if kind == "count":
+                yield st2, mk_int(len(items), "usize")
+            elif kind == "last":
+                yield st2, (some(items[-1]) if items else none())
+            else:
+                vals = [_value_of(ex, st2, x) for x in items]
+                if not all(isinstance(v, Sc) for v in vals):
+                    raise MirUnsupported("%s over non-integer items" % kind)
+                ty = vals[0].ty if vals else (m.group(3) or "i64")
+                if kind == "sum":
+                    e = z3.IntVal(0)
+                    for v in vals:
+                        e = e + v.e
+                    yield st2, Sc(z3.simplify(e), ty)
+                else:
+                    if not vals:
+                        yield st2, none()
+                        continue
+                    e = vals[0].e
+                    for v in vals[1:]:   # max returns the last of equal maxima, min the first: irrelevant for integers
+                        e = z3.If(v.e >= e, v.e, e) if kind == "max" else z3.If(v.e < e, v.e, e)
+                    yield st2, some(Sc(z3.simplify(e), ty))
+        return
+    if kind == "nth":
+        n = ex.concrete(args[1].e)
+        if n is None:
+            raise MirUnsupported("nth of a symbolic index")
+
+        def rec(st, cur, k):
+            for st2, c2, r in iter_next(ex, st, cur):
+                if ex.concrete(r.disc) == 0 or k == 0:
+                    _put_back(ex, st2, ref, c2)
+                    yield st2, r
+                else:
+                    yield from rec(st2, c2, k - 1)
+        yield from rec(st, it, n)
+        return
+    if kind in ("fold", "for_each"):
+        f = args[2] if kind == "fold" else args[1]
+
+        def rec(st, cur, acc):
+            for st2, c2, r in iter_next(ex, st, cur):
+                if ex.concrete(r.disc) == 0:
+                    _put_back(ex, st2, ref, c2)
+                    yield st2, (acc if kind == "fold" else UNIT)
+                    continue
+                argv = [acc, r.alts["Some"][0]] if kind == "fold" else [r.alts["Some"][0]]
+                for o in _call_closure(ex, st2, f, argv):
+                    if o.kind != "return":
+                        yield o
+                        continue
+                    yield from rec(o.st, c2, o.value if kind == "fold" else None)
+        yield from rec(st, it, args[1] if kind == "fold" else None)
+        return
+    if kind in ("find", "find_map", "position"):
+        f = args[1]
+
+        def rec(st, cur, k):
+            for st2, c2, r in iter_next(ex, st, cur):
+                if ex.concrete(r.disc) == 0:
+                    _put_back(ex, st2, ref, c2)
+                    yield st2, none()
+                    continue
+                x = r.alts["Some"][0]
+                arg = Ref(ex.new_cell(st2, x, "find")) if kind == "find" else x
+                for o in _call_closure(ex, st2, f, [arg]):
+                    if o.kind != "return":
+                        yield o
+                        continue
+                    v = o.value
+                    hit = v.e if kind != "find_map" else v.disc == 1
+                    for st3 in ex.branch(o.st, hit):
+                        _put_back(ex, st3, ref, c2)
+                        yield st3, (some(x) if kind == "find" else some(mk_int(k, "usize")) if kind == "position" else v)
+                    for st3 in ex.branch(o.st, z3.Not(hit)):
+                        yield from rec(st3, c2, k + 1)
+        yield from rec(st, it, 0)
+        return
+    raise MirUnsupported("iterator consumer " + callee)
+
+
+def m_lazy_collect(ex, st, callee, args, dest_ty):
+    """collect into Vec<T>, Result<Vec<T>, E> / Option<Vec<T>> (stops at the first Err / None, as std does), BTreeMap<K, V>"""
+    target = re.search(r"::collect::<(.*)>$", callee).group(1) if "::collect::<" in callee else re.search(r"^<(.*) as FromIterator", callee).group(1)
+    it, ref = _iter_arg(ex, st, args[0])
+    if not isinstance(it, (Opaque, Adt)) or isinstance(it, (VecV,)):
+        it = _sub_iter(ex, st, args[0])
+    wrap = re.match(r"^(Result|Option|std::result::Result|std::option::Option)<(Vec<.*>)(, .*)?>$", target)
+    if wrap:
+        res = wrap.group(1).endswith("Result")
+        good, gi = ("Ok", 0) if res else ("Some", 1)
+
+        def rec(st, cur, acc):
+            for st2, c2, r in iter_next(ex, st, cur):
+                if ex.concrete(r.disc) == 0:
+                    v = VecV(z3.IntVal(len(acc)), tuple(acc), "collected")
+                    yield st2, (En("Result", z3.IntVal(0), {"Ok": (v,)}) if res else some(v))
+                    continue
+                x = r.alts["Some"][0]
+                if good in x.alts:
+                    for st3 in ex.branch(st2, x.disc == gi):
+                        yield from rec(st3, c2, acc + [x.alts[good][0]])
+                for st3 in ex.branch(st2, x.disc != gi):
+                    yield st3, (En("Result", z3.IntVal(1), {"Err": x.alts["Err"]}) if res else none())
+        yield from rec(st, it, [])
+        return
+    if re.match(r"^(std::vec::)?Vec<", target):
+        for st2, items, fin in _drain(ex, st, it):
+            yield st2, VecV(z3.IntVal(len(items)), tuple(items), "collected")
+        return
+    if re.match(r"^(std::collections::)?BTreeMap<", target):
+        for st2, items, fin in _drain(ex, st, it):
+            cell = ex.new_cell(st2, MapV(z3.IntVal(0), (), "kv"), "collected")
+
+            def ins(st, k):
+                if k == len(items):
+                    yield st, ex.read(st, cell, ())
+                    return
+                key, val = items[k].fields
+                for st3, _ in m_btree_insert(ex, st, "BTreeMap::insert", [Ref(cell), key, val], None):
+                    yield from ins(st3, k + 1)
+            yield from ins(st2, 0)
+        return
+    raise MirUnsupported("collect into " + target)
+
+
+def m_vec_extend(ex, st, callee, args, dest_ty):
+    r = args[0]
+    base = r
+    while isinstance(ex.read(st, base.cell, base.projs), Ref):
+        base = ex.read(st, base.cell, base.projs)
+    src = args[1]
+    it = src if isinstance(src, Opaque) else _sub_iter(ex, st, src)
+    for st2, items, fin in _drain(ex, st, it):
+        v = ex.read(st2, base.cell, base.projs)
+        n = ex.concrete(v.len)
+        if n is None:
+            raise MirUnsupported("extend of a vector of symbolic length")
+        ex.write(st2, base.cell, base.projs, VecV(z3.IntVal(n + len(items)), tuple(v.items[:n]) + tuple(_value_of(ex, st2, x) if "Cloned" in callee or "Copied" in callee else x for x in items), v.elem_ty))
+        yield st2, UNIT
+
+
+VALUE_MODELS += [
+    (R(r"^<" + ITER_T + r" as Iterator>::(filter|map|filter_map|map_while|take_while|skip_while|inspect|flat_map|chain|take|skip|cloned|copied|flatten|rev|enumerate|zip|by_ref|fuse)(::<.*>)?$"), m_lazy_adapt),
+    (R(r"^<" + ITER_T + r" as IntoIterator>::into_iter$"), m_into_iter_id),
+    (R(r"^<" + ITER_T + r" as DoubleEndedIterator>::rev$"), m_lazy_adapt),
+    (R(r"^(std|core)::iter::once::<.*>$"), m_iter_once),
+    (R(r"^<" + ITER_T + r" as Iterator>::next$"), m_lazy_next),
+    (R(r"^<" + ITER_T + r" as Iterator>::(count|last|nth|fold|for_each|find|find_map|position|sum|min|max|all|any)(::<.*>)?$"), m_lazy_consume),
+    (R(r"^<" + ITER_T + r" as Iterator>::collect::<.*>$"), m_lazy_collect),
+    (R(r"^<Vec<.*> as Extend<.*>>::extend::<.*>$"), m_vec_extend),
+]
